@@ -1,2 +1,20 @@
-(* C06.  Theorems are added here as they are proved. *)
-From PJ.Model Require Import Base.
+(* C06 -- no accepted serializer configuration silently drops statements. *)
+From PJ.Model Require Import Base Terms Encoder Streams.
+From PJ.Proofs Require Import EncoderProofs.
+
+(* For every stream the constructors accept -- any class, logical type, delimiting, explicit or
+   inferred flow of any kind, frame size -- and any input, when stream_frames ends without raising
+   nothing is left in the flow. *)
+Theorem C06_nothing_left_behind :
+  forall (d : sdata) (s s' : stream) (evs : list tev),
+    stream_frames d s = (s', evs) -> raised evs = None -> fl_rows (st_flow s') = [].
+Proof. exact stream_frames_flushes. Qed.
+Print Assumptions C06_nothing_left_behind.
+
+(* A flush neither loses nor invents rows: what leaves in the frame plus what stays is what was there. *)
+Theorem C06_flush_conserves_rows :
+  forall f : flow,
+    (match snd (to_stream_frame f) with Some fr => f_rows fr | None => [] end)
+      ++ fl_rows (fst (to_stream_frame f)) = fl_rows f.
+Proof. exact to_stream_frame_conserves. Qed.
+Print Assumptions C06_flush_conserves_rows.
